@@ -159,6 +159,7 @@ type throttler struct {
 	cond     *sync.Cond
 	duration time.Duration
 	waiting  bool
+	pending  bool
 	trailing bool
 	stop     bool
 }
@@ -191,9 +192,17 @@ func (t *throttler) Call() {
 		if delta > t.duration {
 			t.waiting = true
 			t.cond.Broadcast()
-		} else if t.trailing {
-			t.waiting = true
-			time.AfterFunc(t.duration-delta, t.cond.Broadcast)
+		} else if t.trailing && !t.pending {
+			// Keep the trigger, but grant it only at the trailing edge of the period.
+			t.pending = true
+			time.AfterFunc(t.duration-delta, func() {
+				t.cond.L.Lock()
+				defer t.cond.L.Unlock()
+
+				t.pending = false
+				t.waiting = true
+				t.cond.Broadcast()
+			})
 		}
 	}
 }
